@@ -187,6 +187,32 @@ func c18RunSeq(c *fw.Ctx, seq []int, checkEvery bool) {
 				if !c18Check(c, st, &m, last, seq[:i+1]) {
 					return
 				}
+				// the builder stays in use after a match field was made from it, and in between another builder is
+				// created, driven and converted, and the library is used for other things (every other time): each
+				// builder answers for its own calls only
+				h := prng.Hash64([]byte(fmt.Sprint(seq[:i+1])))
+				if h%3 == 0 {
+					other := of.NewCTStates()
+					var om ctModel
+					r2 := prng.New(h)
+					var oseq []int
+					for k := r2.Range(1, 5); k > 0; k-- {
+						o := r2.Intn(len(ctOps))
+						ctOps[o].f(other)
+						om.apply(o)
+						oseq = append(oseq, o)
+					}
+					c.Count("second_builders", 1)
+					if !c18Check(c, other, &om, "second-builder:"+ctOps[oseq[len(oseq)-1]].name, oseq) {
+						return
+					}
+					if h%6 == 0 {
+						apiNoise(r2, 6)
+					}
+					if !c18Check(c, st, &m, "after-second-builder:"+last, seq[:i+1]) {
+						return
+					}
+				}
 			}
 		}
 	})
